@@ -11,7 +11,7 @@ from . import repo_common as rc
 LEVEL = 'model_checking'
 CLAUSES = ['P:ConfinedFamily', 'P:ConfinedCommand', 'P:ConfinedNamed', 'P:ConfinedReadable', 'P:DeleteRefused',
            'P:ListSnapshotsSet', 'P:ListSnapshotsDetail', 'P:ListFilesSet', 'P:RestoreSelect', 'P:RestoreNothingElse',
-           'P:UnlockOwnPasswordOnly', 'P:Safety', 'P:ListOk']
+           'P:UnlockOwnPasswordOnly', 'P:Safety', 'P:ListOk', 'P:PrivatePartOnlyForItsOwner']
 
 
 def every_user_looks(sess, desc):
